@@ -7,6 +7,7 @@ import DendroModel.Theory.C02Nexus
 import DendroModel.Theory.C02NexusTr
 import DendroModel.Theory.C02NexusDoc
 import DendroModel.Theory.C02Nexml
+import DendroModel.Theory.C02NexmlNs
 /-! C02 — property theorems about the model of `Model/C02.lean` (the definitions `drv_c02` executes).
 
 Every `theorem` directly inside `namespace DendroModel.C02` of this file is an obligation; helper lemmas live in
@@ -1000,6 +1001,45 @@ theorem default_translate_table (ns : List (Str × Nat)) :
 
 example : defaultTable [("a".toList, 2), ("b".toList, 0), ("c".toList, 4)] =
     [("3".toList, "a".toList), ("1".toList, "b".toList), ("5".toList, "c".toList)] := by decide
+
+/-- NeXML attribute protection (`_protect_attr` = `xml.sax.saxutils.quoteattr`) against the XML parser's reading of a quoted
+    attribute value, for EVERY string (labels with `&`, `<`, `>`, both quote characters, tab / LF / CR — which a parser
+    would otherwise normalise to blanks, hence the character references `&#9;` `&#10;` `&#13;`): the value read back is the
+    string written, and nothing beyond the closing quote is consumed.  `quoteAttr` / `parseAttr` are what the driver runs
+    (`attr-quote` against the library's `_protect_attr`, `attr-parse` against `xml.etree` on every generated label). -/
+theorem label_attr_roundtrip (s rest : Str) : parseAttr (quoteAttr s ++ rest) = some (s, rest) := Aux.attr_roundtrip s rest
+
+example : quoteAttr "a\"b'c\t<&".toList = "\"a&quot;b'c&#9;&lt;&amp;\"".toList := by decide
+example : parseAttr (quoteAttr "a\"b'c\t<&".toList ++ " id=\"d1\"".toList) = some ("a\"b'c\t<&".toList, " id=\"d1\"".toList) :=
+  label_attr_roundtrip _ _
+
+/-- NeXML namespace clause on the element structure: the `otus` block the writer model emits for the namespace `ns` (one `otu`
+    per member, in MEMBER order, ids in the writer's numbering) is read by the reader model's `_parse_taxon_namespaces`
+    (`nxOtus`) back into exactly `ns` — same labels, same order — whether the namespace starts empty (`att = none`) or is the
+    caller's own (`att = some ns`), and every otu id is mapped to its label; hence whatever `nxRead` returns for a written
+    document has the namespace `ns`.  Hypotheses: labels non-empty and pairwise distinct up to the case folding.
+    (That `nxRead` does return the trees is compared on every case, op `nexml-rt`, and not proved.) -/
+theorem nexml_otus_roundtrip (cf : Char → Char) (ns : List Str) (hne : ∀ l ∈ ns, l ≠ []) (hd : DistinctCI cf ns)
+    (att : Option (List Str)) (hatt : att = none ∨ att = some ns) (trees : List XW) :
+    nxOtus cf (nxWrite ns trees).otus (att.getD []) [] = some (ns, Aux.otuPairs ns 1) ∧
+    ∀ d, nxRead cf att (nxWrite ns trees) = some d → d.ns = ns := by
+  have h1 : nxOtus cf (nxWrite ns trees).otus (att.getD []) [] = some (ns, Aux.otuPairs ns 1) := by
+    show nxOtus cf (otuList ns 1) (att.getD []) [] = _
+    rcases hatt with rfl | rfl
+    · simpa using Aux.otus_fresh cf ns 1 [] [] hne (by simpa using hd)
+    · simpa using Aux.otus_known cf ns (Aux.caseCons_of_distinct cf ns hd) ns 1 [] (fun l hl => ⟨hne l hl, hl⟩)
+  refine ⟨h1, ?_⟩
+  intro d hr
+  unfold nxRead at hr
+  rw [h1] at hr
+  simp only at hr
+  cases hts : nxReadTrees (Aux.otuPairs ns 1) (nxWrite ns trees).trees with
+  | none => rw [hts] at hr; cases hr
+  | some ts => rw [hts] at hr; cases hr; rfl
+
+example : nxOtus Char.toLower (nxWrite ["b".toList, "a c".toList] []).otus [] [] =
+    some (["b".toList, "a c".toList], [(1, "b".toList), (2, "a c".toList)]) :=
+  (nexml_otus_roundtrip Char.toLower _ (by decide) (by simp [DistinctCI, lowerWith]) none (Or.inl rfl) []).1
 
 /-! ### NeXML: the writer model's id bookkeeping -/
 
